@@ -15,6 +15,7 @@ Binding: recorder c06 generates MIPS / MIPSel machine code from templates (strai
 """
 import collections
 import json
+import os
 
 from vlib import core
 
@@ -24,7 +25,9 @@ TRACE = "Trace_C06"
 
 
 def mc(ctx):
-    ctx.tlc_mc("MC_Recover", "MC_Recover_4.cfg", key="MC_Recover <= 4 instructions of 1..3 bytes, window 4, <= 2 branches",
+    ctx.tlc_mc("MC_Recover", "MC_Recover_4.cfg", key="MC_Recover <= 4 instructions of 1..3 bytes, window 4, <= 2 branches, every entry",
+               workers=16, heap="8g")
+    ctx.tlc_mc("MC_Recover", "MC_Recover_3m.cfg", key="MC_Recover <= 3 instructions, with one manual edge",
                workers=16, heap="8g")
 
 
@@ -47,7 +50,7 @@ def _attach_sessions(rs):
             if not tr or "event" not in rj:
                 continue
             if tr not in cache:
-                with open(tr) as f:
+                with open(os.path.join(core.ROOT, tr)) as f:
                     cache[tr] = [l for l in f if l.strip()]
             if rj["event"].get("ev") == "run":
                 for l in reversed(cache[tr][:rj["line"] - 1]):
